@@ -754,7 +754,9 @@ int main(int argc, char** argv) {
                     out.count("mode." + mode);
                 };
                 emit("clean", 0);
-                for (long k : pickK(r, N, thorough)) emit("at", k);
+                // (a dense-linework input costs seconds per interrupted run under ASan: it keeps the quick tier's number of interruption points in
+                // the thorough tier too — first / last / one middle occurrence of every poll context, 7 strata)
+                for (long k : pickK(r, N, thorough && !deep)) emit("at", k);
                 emit("at", N + 1);
                 emit("pre", 0); emit("cancel", 0); emit("cbcancel", 1); emit("init", 0);
                 if (N >= 2) emit("cbcancel", 2);
